@@ -112,6 +112,29 @@ func genModelGlyph(rng *rand.Rand, name string, lay *ref.WLayout, feat map[strin
 		}
 		g.Cmds = append(g.Cmds, ref.WCmd{Op: 'Z'})
 	}
+	if wildModel && rng.IntN(5) == 0 {
+		// a staircase: many consecutive segments with the same fractional step,
+		// so that rounding errors of one sign would add up if they were not compensated
+		g.Den = []int64{250, 1000, 213, 427}[rng.IntN(4)]
+		den = g.Den
+		g.SBX, g.SBY, g.UseSBW = 0, 0, false
+		g.WX, g.WY = 500*den, 0
+		g.Cmds = nil
+		sx, sy := int64(10*den+1+int64(rng.IntN(3))), int64(20*den+2)
+		x, y = 100*den, 100*den
+		g.Cmds = append(g.Cmds, ref.WCmd{Op: 'M', Args: []int64{x, y}})
+		for i, n := 0, 4+rng.IntN(30); i < n; i++ {
+			x, y = x+sx, y+sy
+			if rng.IntN(4) == 0 {
+				g.Cmds = append(g.Cmds, ref.WCmd{Op: 'C', Args: []int64{x - sx/2, y - sy/3, x - sx/3, y - sy/2, x, y}})
+			} else {
+				g.Cmds = append(g.Cmds, ref.WCmd{Op: 'L', Args: []int64{x, y}})
+			}
+		}
+		g.Cmds = append(g.Cmds, ref.WCmd{Op: 'Z'})
+		feat["staircase of equal fractional steps"] = true
+		return g
+	}
 	// stems: integer edges; only with integral side bearings (always here)
 	stemList := func() [][2]int64 {
 		var out [][2]int64
@@ -185,6 +208,12 @@ var c06Dates = []struct {
 }
 
 func genModelFont(rng *rand.Rand) *modelFont { return genModelFontOpt(rng, false) }
+
+// wildModel makes genModelFontOpt leave C06's comparison domain towards
+// unusual but legal content (C10's inputs): absent FontName, fonts without
+// .notdef, the empty glyph name and names over unusual regular characters,
+// huge/tiny numbers, real-valued Private entries, BlueScale next to its default.
+var wildModel = false
 
 // genModelFontOpt: with nested set, composites get StandardEncoding names and
 // a composite of a composite is added (outside C06's domain; used where only
@@ -453,6 +482,60 @@ func genModelFontOpt(rng *rand.Rand, nested bool) *modelFont {
 		want.Glyphs[g.Name] = wantGlyph(g)
 		if g.HintRepl {
 			mf.skipStems[g.Name] = true
+		}
+	}
+	if wildModel {
+		if rng.IntN(4) == 0 {
+			w.OmitFontName = true
+		}
+		if rng.IntN(4) == 0 {
+			w.Glyphs = w.Glyphs[1:] // no .notdef
+			mf.feat["font without .notdef"] = true
+		}
+		if rng.IntN(4) == 0 {
+			g := genModelGlyph(rng, "", lay, mf.feat)
+			w.Glyphs = append(w.Glyphs, g)
+			mf.feat["empty glyph name"] = true
+		}
+		for i := 0; i < 3; i++ {
+			name := genGlyphName(rng, i)
+			if !used[name] && rng.IntN(2) == 0 {
+				used[name] = true
+				w.Glyphs = append(w.Glyphs, genModelGlyph(rng, name, lay, mf.feat))
+			}
+		}
+		wildNum := func() string {
+			return []string{"1e300", "1e-300", "-0.0", "1e38", "-1e21", "0.1", "123456789.125", "1e-7", "16#FF", "8#17", "1.", ".5", "-.5e1", "+7"}[rng.IntN(14)]
+		}
+		if rng.IntN(2) == 0 {
+			w.ItalicAngle = wildNum()
+		}
+		if rng.IntN(2) == 0 {
+			w.UnderlinePos = wildNum()
+		}
+		if rng.IntN(3) == 0 {
+			w.UnderlineThk = wildNum()
+		}
+		if rng.IntN(3) == 0 {
+			w.FontMatrix = []string{wildNum(), "0", wildNum(), "0.001", wildNum(), "0"}
+		}
+		switch rng.IntN(6) {
+		case 0:
+			w.Private["BlueValues"] = "[1.5 2 3 4.25]"
+		case 1:
+			w.Private["BlueScale"] = []string{"0.0396255", "0.0396245", "0.039626", "0.03962", "0.039625"}[rng.IntN(5)]
+		case 2:
+			w.Private["StdHW"] = "[" + wildNum() + "]"
+		case 3:
+			w.Private["BlueShift"] = "7.5"
+		case 4:
+			w.Private["StdVW"] = "[1 2]"
+		}
+		if rng.IntN(4) == 0 {
+			w.DateLine = []string{"not a date", "2021-13-45 99:99:99 +0000 UTC", "Thu Mar 4 05:06:07 2021 ", "2021-03-04 05:06:07 -0930 XYZ"}[rng.IntN(4)]
+		}
+		if rng.IntN(3) == 0 {
+			w.Info["version"] = "1.0\nline2 % comment (x\r\fy"
 		}
 	}
 	lay.Desc = fmt.Sprintf("%+v", *lay)
